@@ -545,8 +545,8 @@ fn run_index_text_op(op: &str, index: i32, index2: i32, len: usize, text: bool) 
 // therefore reports regressions only (a function or argument combination that is shallow today and recurses tomorrow).
 // ---------------------------------------------------------------------------
 
-pub const API_DEPTH: u64 = 60_000;
-pub const API_STACK: u64 = 2 << 20;
+pub const API_DEPTH: u64 = 200_000;
+pub const API_STACK: u64 = 1 << 20;
 pub const API_BUILDS: &[&str] = &["dev", "shipped"];
 pub const API_SHAPES: &[&str] = &["arrays", "objects"];
 const UNARY_VARIANTS: &[&str] = &["dJ", "dT"];
@@ -1255,7 +1255,7 @@ impl Scenario for Limits {
          plus seeded log-uniform depths between the rungs with stacks {1,2,4,8 MiB}. Extreme-argument cases: {delete_by_index, array_insert, delete_by_keypath, get_by_keypath, $[i], \
          $[last-i], $[last+i], $[a to b]} x {MIN, MIN+1, -len-1, -len, -1, 0, len-1, len, len+1, MAX-1, MAX} x len {0,1,3} x {JSONB, JSON text} x all three builds, all enumerated, plus seeded i32s. \
          API sweep: 49 public byte-level functions x every argument layout (deep JSONB / deep text in each position, small JSONB / text in the other) x {arrays, objects} x {dev, shipped} \
-         at 60,000 levels on a 2 MiB stack; variants that die on the unchanged tree are recorded in limits_baseline.json, so the sweep reports regressions only. \
+         at 200,000 levels on a 1 MiB stack; variants that die on the unchanged tree are recorded in limits_baseline.json, so the sweep reports regressions only. \
          distinct_nontrivial = distinct cases with depth >= 2 or an index outside -len..len."
             .into()
     }
